@@ -240,7 +240,7 @@ impl Check for C08 {
     fn runs(&self, tier: Tier) -> u64 {
         match tier {
             // 1- and 2-leaf trees exhaustively at every placement, then seeded trees
-            Tier::Quick => (N1 + N2) * PLACES.len() as u64 + 60_000,
+            Tier::Quick => (N1 + N2) * PLACES.len() as u64 + 300_000,
             // all trees up to 3 leaves at every placement, then seeded trees
             Tier::Thorough => (N1 + N2 + N3) * PLACES.len() as u64 + 1_500_000,
         }
